@@ -1230,6 +1230,33 @@ fn rss_kb(pid: u32) -> Option<u64> {
 
 /// PARENT: the child's files are merged into the run; a child that had to be killed is a `diverges` line
 fn finish_child(ctx: &mut Ctx, p: Pending, status: Option<std::process::ExitStatus>, rss_at_kill: Option<u64>) {
+    // a timeout on a route of three or more edges is unexpected enough to be confirmed with a
+    // threefold budget before it is believed (a busy machine must not look like a divergence)
+    let mut status = status;
+    if status.is_none() {
+        let long_route = build(&p.kc.base).ok().map_or(false, |b| {
+            let (plain, _) = plain_run(&p.kc, &b);
+            matches!(plain_route_len(&p.kc, &plain), Some(l) if l >= 3)
+        });
+        if long_route {
+            let _ = std::fs::remove_dir_all(&p.dir);
+            if let Ok(mut child) = spawn_child(ctx.seed, ctx.quick(), p.idx, &p.dir, None) {
+                let t0 = std::time::Instant::now();
+                while (t0.elapsed().as_millis() as u64) < 3 * YEN_TIMEOUT_MS {
+                    if let Ok(Some(st)) = child.try_wait() {
+                        status = Some(st);
+                        ctx.count("timeout_not_confirmed");
+                        break;
+                    }
+                    std::thread::sleep(std::time::Duration::from_millis(5));
+                }
+                if status.is_none() {
+                    let _ = child.kill();
+                    let _ = child.wait();
+                }
+            }
+        }
+    }
     let read = |f: &str| std::fs::read_to_string(format!("{}/{}", p.dir, f)).unwrap_or_default();
     let cases = read("cases.txt");
     let impls = read("impl.txt");
